@@ -267,3 +267,47 @@ func init() {
 		return "ok pi=" + encFloats(base.pi) + ";p=" + encFloats(base.p) + ";d=" + encFloats(base.d)
 	})
 }
+
+// protdistmatrix <model name> <rmgaps> <gamma> <alpha> <rows>
+//
+// The library call `goalign compute distance -m <protein model>` makes for ONE alignment, with a fresh model object:
+// pm.ModelStringToInt, NewProtDistModel(idx, true, gamma, alpha, rmgaps), InitModel(nil, nil), MLDist(a, nil).  The alignment
+// gets the alphabet the command's parsers give it (AutoAlphabet on the residues: an amino-acid alignment written with
+// letters that are all nucleotide codes is a nucleotide alignment, and MLDist answers with an error).
+// Result: `err <stage>` or `ok r;r;…` (rows of IEEE-754 bit patterns, as `distmatrix`).
+func protDistMatrixOp(a []string) string {
+	idx := pm.ModelStringToInt(a[0])
+	if idx == -1 {
+		return "err nomodel"
+	}
+	rmgaps, gamma, alpha := atob(a[1]), atob(a[2]), ratio(a[3])
+	al, err := mkAlign(align.UNKNOWN, decRows(a[4]))
+	if err != nil {
+		return "err build"
+	}
+	al.AutoAlphabet()
+	m, err := protein.NewProtDistModel(idx, true, gamma, alpha, rmgaps)
+	if err != nil {
+		return "err new"
+	}
+	if err = m.InitModel(nil, nil); err != nil {
+		return "err init"
+	}
+	_, _, d, err := m.MLDist(al, nil)
+	if err != nil {
+		return "err mldist"
+	}
+	r, c := d.Dims()
+	out := make([][]float64, r)
+	for i := range out {
+		out[i] = make([]float64, c)
+		for j := range out[i] {
+			out[i][j] = d.At(i, j)
+		}
+	}
+	return "ok " + encMatrix(out)
+}
+
+func init() {
+	register("protdistmatrix", protDistMatrixOp)
+}
